@@ -3978,7 +3978,14 @@ func (a *Association) sendPayloadData(ctx context.Context, chunks []*chunkPayloa
 			a.lock.Unlock()
 			select {
 			case <-ctx.Done():
-				return ctx.Err()
+				// The write deadline may be moved concurrently: if it was re-armed
+				// after it fired, Err() is nil again. Returning that nil would report
+				// success for a write whose chunks were never queued (and whose
+				// sequence number is then lost for good), so keep waiting under the
+				// new deadline instead.
+				if err := ctx.Err(); err != nil {
+					return err
+				}
 			case <-writeNotify:
 			}
 			a.lock.Lock()
